@@ -225,11 +225,62 @@ func init() {
 						}
 					})
 				}
+				taintedMaps := map[ssa.Value]string{}
+				addMap := func(m ssa.Value, why string) {
+					if _, ok := m.Type().Underlying().(*types.Map); !ok {
+						return
+					}
+					if _, seen := taintedMaps[m]; seen {
+						return
+					}
+					taintedMaps[m] = why
+					// everything read back out of that map is a published slice too
+					for _, r := range refsOf(m) {
+						switch x := r.(type) {
+						case *ssa.Lookup:
+							if x.X != m {
+								continue
+							}
+							if x.CommaOk {
+								for _, r2 := range refsOf(x) {
+									if ex, ok := r2.(*ssa.Extract); ok && ex.Index == 0 {
+										add(ex, why+" via local map")
+									}
+								}
+							} else {
+								add(x, why+" via local map")
+							}
+						case *ssa.Range:
+							for _, r2 := range refsOf(x) {
+								if nx, ok := r2.(*ssa.Next); ok {
+									for _, r3 := range refsOf(nx) {
+										if ex, ok := r3.(*ssa.Extract); ok && ex.Index == 2 {
+											add(ex, why+" via local map")
+										}
+									}
+								}
+							}
+						}
+					}
+				}
 				for len(work) > 0 {
 					v := work[0]
 					work = work[1:]
 					for _, r := range refsOf(v) {
 						switch x := r.(type) {
+						case *ssa.MapUpdate:
+							if x.Value == v {
+								addMap(x.Map, tainted[v])
+							}
+						case *ssa.Store:
+							// spilled into a local (named results of functions with defer, captured variables)
+							if al, ok := x.Addr.(*ssa.Alloc); ok && x.Val == v {
+								for _, r2 := range refsOf(al) {
+									if ld, ok := r2.(*ssa.UnOp); ok && ld.X == ssa.Value(al) {
+										add(ld, tainted[v])
+									}
+								}
+							}
 						case *ssa.Phi:
 							add(x, tainted[v])
 						case *ssa.Slice:
@@ -256,6 +307,14 @@ func init() {
 								}
 							}
 						case *ssa.Call:
+							// passed to a module function: its parameter is the published slice as well
+							if cal := x.Call.StaticCallee(); cal != nil && inModule(fnPkgPath(cal)) && cal.Blocks != nil {
+								for i, a := range x.Call.Args {
+									if a == v && i < len(cal.Params) {
+										add(cal.Params[i], tainted[v]+" passed to "+cal.Name())
+									}
+								}
+							}
 							if b, ok := x.Call.Value.(*ssa.Builtin); ok && b.Name() == "append" && x.Call.Args[0] == v {
 								n++
 								c.Violate(fmt.Sprintf("%s / append-in-place %s#%d", fnKey(x.Parent()), id, n), x.Pos(), "append to a slice that is published in %s (%s): if the backing array has spare capacity the element is written into the list concurrent requests are iterating", id, tainted[v])
